@@ -19,7 +19,7 @@ CONSTANTS
   ImpPairs <- MCImpQ
   InitSchemas <- MCInit2P
   MaxHist = 4
-  Dev <- MCAllDevs
+  Dev <- MCCurDevs
 VIEW View
 INVARIANTS TypeOK SchemaOK LayoutOK GenerateTotal
 PROPERTIES MethodsKeptND FilesParseND IdealRecorded Deterministic
